@@ -166,6 +166,19 @@ def run(rep, tier, seed):
     e, mag = evaluate("erf", nf2, r["par"], 0.4, 3)
     if abs(float(nd.erf(numpy.array([0.4]), n=3)[0]) - e) <= 1e-9 * mag + 1e-12:
         raise Machinery("self-test: corrupted normal form not detected")
+    # hyperu with array-valued parameters (NumPy broadcasting of a, b against x): the stack of the scalar-parameter results
+    xs = numpy.array([0.5, 1.0, 2.5, 3.0])
+    for n in range(0, maxn + 1):
+        for what, call, rows in (("a", lambda n=n: nd.hyperu(numpy.array([[0.5], [1.0], [-1.5]]), 1.25, xs, n=n), [(0.5, 1.25), (1.0, 1.25), (-1.5, 1.25)]),
+                                 ("b", lambda n=n: nd.hyperu(0.5, numpy.array([[1.25], [2.0]]), xs, n=n), [(0.5, 1.25), (0.5, 2.0)])):
+            rep.case(("hyperu array parameter", what, n), nontrivial=n >= 2)
+            try:
+                got = numpy.asarray(call(), dtype=float)
+                want = numpy.array([nd.hyperu(a_, b_, xs, n=n) for a_, b_ in rows], dtype=float)
+                if got.shape != want.shape or not numpy.allclose(got, want, rtol=1e-12, atol=0, equal_nan=True):
+                    rep.violation("hyperu with an array-valued parameter %s differs from the scalar-parameter calls" % what, {"n": n})
+            except Exception as ex:
+                rep.violation("hyperu with an array-valued parameter raises " + type(ex).__name__, {"n": n, "what": repr(ex)[-200:]})
     if skipped[0] > 40:
         raise Machinery("too many points without a finite reference value (%d)" % skipped[0])
     rep.assumptions += ["%d (function, order, point) combinations skipped: SciPy returns no finite value for the generator of the normal form (hyperu with large parameters near 0)" % skipped[0],
